@@ -57,6 +57,20 @@ func verifPlant(root, rel string) {
 	_ = os.WriteFile(target, []byte(verifSecret), 0o644)
 }
 
+// verifPlantInside (native replay only) creates the requested file under the
+// root, so that "is it served?" does not depend on the sandbox's fixed files.
+func verifPlantInside(root, rel string) {
+	target := filepath.Join(root, rel)
+	if target == root || !strings.HasPrefix(target, root+string(filepath.Separator)) {
+		return
+	}
+	if _, err := os.Stat(target); err == nil {
+		return
+	}
+	_ = os.MkdirAll(filepath.Dir(target), 0o755)
+	_ = os.WriteFile(target, []byte("INSIDE"), 0o644)
+}
+
 func verifUnder(root, name string) bool {
 	c := path.Clean(name)
 	return c == root || (len(c) > len(root) && c[:len(root)] == root && c[len(root)] == '/')
@@ -113,6 +127,7 @@ func verifHarness_C17_static() {
 	if !verifSymbolic() {
 		verifPlant(root, strings.TrimPrefix(req.URL.Path, prefix))
 		verifPlant(root, req.URL.Path)
+		verifPlantInside(root, strings.TrimPrefix(req.URL.Path, prefix))
 	}
 	rec := verifNewWriter()
 	verifEventsReset()
@@ -120,6 +135,12 @@ func verifHarness_C17_static() {
 	verifAssert(k == "", "serving a static request does not panic")
 	if !verifSymbolic() {
 		verifAssert(string(rec.body) != verifSecret, "no request yields content from outside the root")
+		if kind == 1 {
+			body := string(rec.body)
+			servedFile := rec.whStatus == 200 && (body == "INSIDE" || body == "css" || body == "js" || body == "txt")
+			want := regexp.MustCompile(`^` + regexp.QuoteMeta(prefix) + `/.+\.(?:` + exts + `)$`).MatchString(verifSpecNorm(p, false))
+			verifAssert(!servedFile || want, "StaticFiles serves only request paths that end in an allowed extension")
+		}
 		return
 	}
 	ok := true
